@@ -503,6 +503,7 @@ func newSysEnv(kind string, dedupTimeout time.Duration) *sysEnv {
 		cfg.MaxConcurrentQueries = 6
 	case "z": // the per-zone quota (max(32/16, 16) = 16) binds before the global pool (32)
 		cfg.MaxConcurrentQueries = 32
+		cfg.OutboundIPs = []string{"127.0.0.1"} // outbound address chosen from the client's message id
 	}
 	cfg.IngressTCPConns = 256
 	e.cfg = cfg
@@ -1017,6 +1018,16 @@ func (e *sysEnv) build(g *group) {
 			c := e.mk("pipe", "ok", lbl(i), dns.TypeA)
 			c.mustOK = true
 			add(c, true)
+		}
+	case "idedge": // client message ids on the edges, against a zone that forces the TCP leg upstream
+		for i, id := range []uint16{0, 1, 32768, 65534, 65535} {
+			c := e.mk([]string{"udp", "tcp"}[i%2], g.zone, lbl(i), dns.TypeA)
+			c.id = id
+			add(c, true)
+		}
+	case "pipebig": // far more pipelined queries than the connection's 4 KB fill buffer holds
+		for i := 0; i < g.n; i++ {
+			add(e.mk("pipe", g.zone, "hot", dns.TypeA), true)
 		}
 	case "framesize": // well-formed queries padded (EDNS padding) to frame lengths on the slab-class boundaries
 		for i, l := range []int{2047, 2048, 2049, 4095, 4096, 4097, 16382, 65535} {
